@@ -13,7 +13,8 @@
    pinned code has a defect, the full statement is a Definition with a [_refuted] witness. *)
 From Coq Require Import ZArith NArith Bool List.
 Import ListNotations.
-From TP Require Import Base.PyVal Ser.Mappers Ser.MappersProofs.
+From TP Require Import Base.PyVal Ser.Mappers Ser.MappersProofs Ser.MappersRoundTripProofs Ser.MappersCacheProofs
+     Gen.MapperSites Ser.MapperSitesOk.
 
 (* the aggregated mapper (either direction), for ANY mapper list and class, maps every field to
    its rename chain (DoNotSerialize when the chain drops it) *)
@@ -106,6 +107,86 @@ Theorem C07_roundtrip_lookup_partial : forall c L am x dd,
                  ((forall n, In n (keys_of x) -> rename_chain L n <> Some u) -> alist_get dd u = None)).
 Proof. exact roundtrip_lookup. Qed.
 
+(* round trip through the model of deserialize_structure_internal / construct_fields_map, for a
+   class of scalar fields under ANY mapper list (declared list, explicit mapper, camel_case_convert):
+   serialization succeeds and deserializing its result gives back the populated fields.  The last
+   hypothesis is exactly the complement of the defect C07-F2 (an unpopulated field NAMED like the key
+   of a populated one). *)
+Theorem C07_roundtrip_flat : forall c override flag x,
+    let L := used_list c override flag in
+    flat_class c -> field_names c <> [] ->
+    (forall n, In n (field_names c) -> ident n = true /\ chain_ok L n (Some n) = true) ->
+    (forall n, In n (field_names c) -> rename_chain L n <> None) ->
+    (forall n1 n2 k, In n1 (field_names c) -> In n2 (field_names c) ->
+                     rename_chain L n1 = Some k -> rename_chain L n2 = Some k -> n1 = n2) ->
+    (forall n, In n (keys_of x) -> In n (field_names c)) -> NoDup (keys_of x) -> scalar_inst x ->
+    (forall u n, In u (field_names c) -> ~ In u (keys_of x) -> In n (keys_of x) -> rename_chain L n <> Some u) ->
+    exists dd, serialize c override flag x = Ok (DDict dd) /\
+               deser_struct c override flag dd = Ok (project (field_names c) x).
+Proof. exact roundtrip_flat_total. Qed.
+
+(* deserialization side of the nested mapper: in the aggregated deserialization mapper the nested
+   mapper of field f sits under "<rename chain of f>._mapper" -- the entry construct_fields_map looks
+   up FIRST -- and is the nested class's aggregate composed left to right with what the list says
+   about f ([des_track]); [des_free]: the `==` shortcut does not fire on the entry and no other entry
+   moves onto its key *)
+Theorem C07_nested_mapper_deser : forall c L dm f kd c' sub0 b,
+    agg_list false c (Some L) = Ok dm ->
+    NoDup (field_names c) -> (forall k, In k (field_names c) -> ident k = true) ->
+    In (f, Some (kd, c')) (cfields c) ->
+    agg_list false c' None = Ok sub0 -> (kd = KRef \/ sub0 <> []) ->
+    base_noop false c = Ok b -> des_free L b f sub0 = true ->
+    exists k x', des_track L f sub0 = Ok (k, x') /\ rename_chain L f = Some k /\
+                 alist_get dm (k ++ suffix) = Some (Sub x') /\
+                 deser_sub_lookup dm k f = Some (Sub x').
+Proof. exact nested_entry_deser. Qed.
+
+(* ... and the order of the two lookups matters: "<field>._mapper" first hands a field the nested
+   mapper of the sibling that was renamed onto its name *)
+Theorem C07_sub_lookup_order_matters :
+  exists dm subR, agg_list false cOuter (Some LOuter) = Ok dm /\ agg_list false cRight None = Ok subR /\
+    deser_sub_lookup dm sc sb = Some (Sub subR) /\ deser_sub_lookup_rev dm sc sb <> Some (Sub subR).
+Proof. exact sub_lookup_order_matters. Qed.
+
+(* the process-wide memo table aggregated_mapper_by_class is transparent: for EVERY history of calls
+   (class, explicit mapper, flag) each answer is the one a fresh aggregation gives ... *)
+Theorem C07_cache_transparent : forall table rs ch,
+    coherent table ch -> serve table ch rs = map (fresh table) rs.
+Proof. exact serve_transparent. Qed.
+
+Theorem C07_cache_transparent_from_empty : forall table rs, serve table [] rs = map (fresh table) rs.
+Proof. exact serve_transparent_from_empty. Qed.
+
+(* ... which needs both the flag and the explicit mapper in the memo key *)
+Theorem C07_cache_key_without_flag_refuted :
+  exists rs, serve_with key_no_flag tableI [] rs <> map (fresh tableI) rs.
+Proof. exact key_without_flag_refuted. Qed.
+
+Theorem C07_cache_key_without_override_refuted :
+  exists rs, serve_with key_no_override tableI [] rs <> map (fresh tableI) rs.
+Proof. exact key_without_override_refuted. Qed.
+
+(* the model performs the nested-mapper lookups / stores / enum dispatch that Gen/MapperSites.v
+   records from the CURRENT source (regenerated on every run): order of the two "._mapper" lookups
+   in construct_fields_map and add_mapper_to_aggregation, the single lookup of serialize_internal,
+   the key a nested mapper is stored under, TO_CAMELCASE / TO_LOWERCASE -> camel / upper *)
+Theorem C07_model_follows_source_sites :
+  (forall dm mapped field, deser_sub_lookup dm mapped field = lookup_roles site_deser dm mapped field) /\
+  (forall d mapped field, sub_of (MDict d) mapped field = classify_sub (lookup_roles site_agg d mapped field)) /\
+  (forall rec am k v acc mapped,
+      ser_step rec am (k, v) acc =
+      match alist_get am k with
+      | Some DoNot => Ok acc
+      | e => let key := match e with Some (Key s) => s | _ => k end in
+             y <- rec (lookup_roles site_ser am mapped k) v ;; Ok (alist_set acc key y)
+      end) /\
+  writes_agg = [RMapped; RMapped] /\ writes_base = [RField; RField; RField] /\
+  (forall m name s, enum_name m = Some name ->
+      exists f, dispatch_of name enum_dispatch = Some f /\
+                strfun_apply f s = Some (match apply_key m s with Key t => t | _ => s end)) /\
+  camelcase_shape_ok = true.
+Proof. exact sites_ok. Qed.
+
 (* the full round trip is false of the pinned code: (a) an unpopulated field named like another
    field's key captures its value; (b) two levels down the deserialization mapper is re-aggregated *)
 Theorem C07_roundtrip_full_refuted : ~ roundtrip_full.
@@ -136,6 +217,14 @@ Print Assumptions C07_keys_exact_nested.
 Print Assumptions C07_donot_absent.
 Print Assumptions C07_collide_only_if_mapper.
 Print Assumptions C07_roundtrip_lookup_partial.
+Print Assumptions C07_roundtrip_flat.
+Print Assumptions C07_nested_mapper_deser.
+Print Assumptions C07_sub_lookup_order_matters.
+Print Assumptions C07_cache_transparent.
+Print Assumptions C07_cache_transparent_from_empty.
+Print Assumptions C07_cache_key_without_flag_refuted.
+Print Assumptions C07_cache_key_without_override_refuted.
+Print Assumptions C07_model_follows_source_sites.
 Print Assumptions C07_roundtrip_full_refuted.
 Print Assumptions C07_roundtrip_depth2_refuted.
 Print Assumptions C07_wrapper_rejects_nonfield.
@@ -165,6 +254,44 @@ Example C07_nonvacuous :
 Proof.
   split; [vm_compute; reflexivity|]. split; [vm_compute; reflexivity|]. split; [vm_compute; reflexivity|].
   split; [eexists; split; vm_compute; reflexivity|].
+  eexists. eexists. split; [vm_compute; reflexivity|]. split; [vm_compute; reflexivity|].
+  split; vm_compute; reflexivity.
+Qed.
+
+(* non-vacuity of C07_roundtrip_flat: Foo {i, s, in_x} under [{"i": "name", "s": "i"}, TO_CAMELCASE]
+   plus camel_case_convert (field s is written under the NAME of its sibling i, a falsy value is
+   stored under i): every hypothesis is discharged, and the conclusion is computed *)
+Definition rf_L := [MDict [(s_i, Key s_name); (s_s, Key s_i)]; MCamel].
+Definition rf_c := Class [(s_i, None); (s_s, None); (e_in_x, None)] rf_L.
+Definition rf_x : list (pystr * ival) := [(s_i, IScal 0%Z); (s_s, IScal 6%Z); (e_in_x, IScal 7%Z)].
+
+Example C07_roundtrip_flat_nonvacuous :
+  exists dd, serialize rf_c None true rf_x = Ok (DDict dd) /\
+             keys_of dd = [s_name; s_i; p [105; 110; 88]] /\
+             deser_struct rf_c None true dd = Ok rf_x.
+Proof.
+  destruct (C07_roundtrip_flat rf_c None true rf_x) as [dd [Hs Hd]].
+  - intros k fk [H|[H|[H|[]]]]; inversion H; reflexivity.
+  - discriminate.
+  - intros n [<-|[<-|[<-|[]]]]; split; vm_compute; reflexivity.
+  - intros n [<-|[<-|[<-|[]]]]; vm_compute; discriminate.
+  - intros n1 n2 k [<-|[<-|[<-|[]]]] [<-|[<-|[<-|[]]]]; vm_compute; intros E1 E2; try reflexivity; congruence.
+  - intros n H. exact H.
+  - repeat constructor; cbn; intuition discriminate.
+  - intros n v [H|[H|[H|[]]]]; inversion H; eexists; reflexivity.
+  - intros u n Hu Hnu Hn. exfalso. apply Hnu. exact Hu.
+  - exists dd. split; [exact Hs|].
+    assert (E : serialize rf_c None true rf_x = Ok (DDict [(s_name, DScal 0%Z); (s_i, DScal 6%Z); (p [105; 110; 88], DScal 7%Z)]))
+      by (vm_compute; reflexivity).
+    rewrite E in Hs. inversion Hs; subst dd. split; [reflexivity|]. exact Hd.
+Qed.
+
+(* non-vacuity of C07_nested_mapper_deser: Outer {a: Left, b: Right} under {a: b, b: c} -- field b,
+   whose NAME is the key of its sibling a *)
+Example C07_nested_mapper_deser_nonvacuous :
+  exists b subR, base_noop false cOuter = Ok b /\ agg_list false cRight None = Ok subR /\
+                 des_free LOuter b sb subR = true /\ des_track LOuter sb subR = Ok (sc, subR).
+Proof.
   eexists. eexists. split; [vm_compute; reflexivity|]. split; [vm_compute; reflexivity|].
   split; vm_compute; reflexivity.
 Qed.
